@@ -242,6 +242,44 @@ func (s *c09Space) judge(idx []int) (class, detail string) {
 		}
 		if !bytes.Equal(ser, ser2) {
 			class, detail = "not-canonical", fmt.Sprintf("re-serialised %d bytes, original %d bytes", len(ser2), len(ser))
+			return
+		}
+		// history independence: the same message built in another order, serialised (and proposed) at
+		// every intermediate stage, ends in the same bytes - and Write agrees with Bytes
+		m3 := fbb.NewMessage(typ, "N0SRC")
+		m3.Header.Set("Mid", "ABCDEFGHIJKL")
+		m3.Bytes()
+		m3.Proposal(fbb.Wl2kProposal)
+		if err := m3.SetBody(body); err != nil {
+			class, detail = "setbody-error", err.Error()
+			return
+		}
+		m3.Bytes()
+		for i, d := range atts {
+			m3.AddFile(fbb.NewFile(names[i], append([]byte{}, c09Datas[d]...)))
+			m3.Bytes()
+		}
+		m3.SetDate(date)
+		for _, a := range to {
+			m3.AddTo(c09Addrs[a].In)
+		}
+		m3.Proposal(fbb.Wl2kProposal)
+		for _, a := range cc {
+			m3.AddCc(c09Addrs[a].In)
+		}
+		m3.SetSubject(subj)
+		m3.Bytes()
+		for _, e := range extras {
+			m3.Header.Add(e.K, e.V)
+		}
+		ser3, err := m3.Bytes()
+		if err != nil || !bytes.Equal(ser3, ser) {
+			class, detail = "serialisation-depends-on-history", fmt.Sprintf("built with intermediate serialisations: %d bytes (%v), built at once: %d bytes; subject parsed back %q", len(ser3), err, len(ser), func() string { var x fbb.Message; x.ReadFrom(bytes.NewReader(ser3)); return x.Subject() }())
+			return
+		}
+		var wbuf bytes.Buffer
+		if err := m3.Write(&wbuf); err != nil || !bytes.Equal(wbuf.Bytes(), ser) {
+			class, detail = "write-and-bytes-disagree", fmt.Sprintf("Write gave %d bytes (%v), Bytes %d", wbuf.Len(), err, len(ser))
 		}
 	})
 	if pmsg != "" {
